@@ -377,8 +377,9 @@ Proof.
   - (* MapCtx *) apply IH.
   - (* JustCfg *) unfold just_go. crush IH.
   - (* Memo *)
-    destruct (negb (memo_on Q)); [apply IH|].
-    destruct (memo_get (memo s) (cur s) id) as [[[[p e]|]|]|]; try reflexivity.
+    destruct (negb (memo_on Q)); [crush IH|].
+    destruct (memo_get (memo s) (cur s) id) as [[[[p e]|]|]|]; try reflexivity; try (destruct (memo_strict Q); reflexivity).
+    { destruct (memo_strict Q && (n <? memo_fuel (memo s) (cur s) id)); reflexivity. }
     destruct (q_memo_take Q); crush IH.
   - (* Rec *) apply IH.
   - (* Var *) destruct (nth_error (crec ctx) k); [apply IH | reflexivity].
